@@ -22,10 +22,30 @@ class TooManySteps(Exception):
     pass
 
 
-def guarded_parse(payload, bound):
+ALLOWED = {   # RFC 9000 12.4, table 3: which frames a packet type may carry (1-RTT: all)
+    "INITIAL": {"pad", "ping", "ack", "crypto", "close"}, "HANDSHAKE": {"pad", "ping", "ack", "crypto", "close"},
+    "RTT_O": {"pad", "ping", "reset", "stop", "stream", "maxdata", "maxsd", "maxstreams", "blocked", "sblocked", "ssblocked", "ncid", "pc", "close", "dgram"},
+}
+
+
+def packet_of_type(ptype):
+    """the packet the frames are said to come from: a Long / ShortQuicPacket object of that type (constructed without a header)"""
+    if ptype is None:
+        return None
+    from tlexport.quic.quic_packet import LongQuicPacket, ShortQuicPacket, QuicPacketType, QuicHeaderType
+    cls = ShortQuicPacket if ptype == "RTT_1" else LongQuicPacket
+    p = object.__new__(cls)
+    p.packet_type = getattr(QuicPacketType, ptype)
+    p.header_type = QuicHeaderType.SHORT if ptype == "RTT_1" else QuicHeaderType.LONG
+    p.isserver, p.ts, p.first_byte = False, 0, b"\x40"
+    return p
+
+
+def guarded_parse(payload, bound, ptype=None):
     """parse_frames under a deterministic step budget: every Python call made from tlexport.quic code counts one step"""
     from tlexport.quic.quic_frame import parse_frames
     n = [0]
+    src = packet_of_type(ptype)
 
     def prof(frame, event, arg):
         if event == "call" and "tlexport" in frame.f_code.co_filename:
@@ -35,7 +55,7 @@ def guarded_parse(payload, bound):
                 raise TooManySteps()
     sys.setprofile(prof)
     try:
-        return parse_frames(payload, None), n[0]
+        return parse_frames(payload, src), n[0]
     finally:
         sys.setprofile(None)
 
@@ -75,7 +95,15 @@ def frame_desc():
 
 @st.composite
 def frame_seq(draw):
-    return {"seed": draw(st.integers(0, 2 ** 32 - 1)), "frames": draw(st.lists(frame_desc(), min_size=1, max_size=12))}
+    # the frames come from a packet of some type (or from none, as in the repository's own tests); a type restricts the frames to those
+    # RFC 9000 12.4 permits in it
+    ptype = draw(st.sampled_from([None, None, "RTT_1", "RTT_1", "RTT_O", "RTT_O", "INITIAL", "HANDSHAKE"]))
+    frames = draw(st.lists(frame_desc(), min_size=1, max_size=12))
+    if ptype in ALLOWED:
+        frames = [f for f in frames if f[0] in ALLOWED[ptype]] or [["ping"]]
+        if ptype != "RTT_O":
+            frames = [f[:4] + [False] + f[5:] if f[0] == "close" else f for f in frames]      # only the transport form of CONNECTION_CLOSE
+    return {"seed": draw(st.integers(0, 2 ** 32 - 1)), "frames": frames, "ptype": ptype}
 
 
 def encode_seq(spec):
@@ -103,7 +131,7 @@ def encode_seq(spec):
 def evaluate_seq(spec):
     payload, truth = encode_seq(spec)
     try:
-        frames, steps = guarded_parse(payload, 60 * len(payload) + 200)
+        frames, steps = guarded_parse(payload, 60 * len(payload) + 200, spec.get("ptype"))
     except TooManySteps:
         return {"sig": "well-formed: parser does not terminate", "detail": payload.hex()[:200], "nontrivial": True}
     except Exception as e:  # noqa
